@@ -77,6 +77,7 @@ structure Mon where
   answered : List String := []
   nts : List Nat := []
   connRet : Bool := false
+  connFailed : Bool := false
   termSeen : Bool := false
 deriving Repr
 
@@ -222,7 +223,7 @@ def checkLive (c : Ctx) : List (Nat × Payload) → Option Clause
   | (i, p) :: rest =>
     let w : Why :=
       if decide (endOff c.scn.items i - (match c.scn.items[i]? with | some it => it.bytes.length | none => 0) < c.m.epReadEnd) then .sameReadAsEndpoint
-      else if c.m.termSeen || c.m.connRet then c.why   -- the client had torn the session down before
+      else if c.m.termSeen || c.m.connFailed then c.why   -- the client had torn the session down before
       else .plain
     let r : Option Clause :=
       match p with
@@ -293,6 +294,7 @@ def monNext (c : Ctx) : Mon :=
     answered := m.answered ++ (respIdsOf c.toks).map (·.1),
     nts := m.nts ++ ntsOf c.toks,
     connRet := m.connRet || c.toks.contains .connOk || c.toks.contains .connErr,
+    connFailed := m.connFailed || c.toks.contains .connErr,
     termSeen := m.termSeen || c.toks.contains .term }
 
 def monStep (scn : Scn) (m : Mon) (op : Op) (toks : List Tok) : Mon × Option Clause :=
